@@ -347,13 +347,26 @@ Proof.
     apply Hr. apply nth_In. apply Hj; auto.
 Qed.
 
+Lemma c20_wf_on_npv : forall cfg st r f, c20_wf st ->
+  (forall cs, c20_wf (fst (f cs))) -> c20_wf (fst (c20_on_npv cfg st r f)).
+Proof.
+  intros cfg st r f Hwf Hf. unfold c20_on_npv. destruct (nth_error (c20_regs st) r); simpl; auto.
+  destruct (c20_npv_cells cfg (c20_H st) (c20_cells c)); simpl; auto.
+Qed.
+
+Lemma c20_wf_npv_inplace : forall st cs vals, c20_wf st -> c20_wf (fst (c20_npv_inplace st cs vals)).
+Proof. intros. unfold c20_npv_inplace. simpl. apply c20_wf_set_heap; auto. apply c20_write_all_length. Qed.
+
 Lemma P_step_wf : forall cfg st op, c20_wf st -> c20_wf (fst (c20_step cfg st op)).
 Proof.
   intros cfg st op Hwf.
   destruct op; simpl;
     try (apply c20_wf_push_new; assumption);
-    try (apply c20_wf_on_vec; [assumption | intros o Ho Hok]);
-    try (apply c20_wf_on_any; [assumption | intros o Ho Hok]);
+    try match goal with
+      | |- context [c20_on_npv] => apply c20_wf_on_npv; [assumption | intros cs]
+      | |- context [c20_on_vec] => apply c20_wf_on_vec; [assumption | intros o Ho Hok]
+      | |- context [c20_on_any] => apply c20_wf_on_any; [assumption | intros o Ho Hok]
+      end;
     try (apply c20_wf_with_operand; [assumption | intros y]);
     try match goal with
       | |- context [c20_slice_indices ?n ?a ?b ?c] =>
@@ -370,6 +383,8 @@ Proof.
     repeat match goal with |- context [if ?c then _ else _] => destruct c end;
     try (apply c20_wf_push_new; assumption);
     try (apply c20_wf_inplace; assumption);
+    try (apply c20_wf_npv_inplace; assumption);
+    try (simpl; apply c20_wf_set_heap; [assumption | apply c20_write_length]);
     try (simpl; assumption).
 Qed.
 
@@ -701,4 +716,191 @@ Proof.
       * repeat split; try lia. intros _. rewrite Z.even_add. rewrite <- Z.negb_odd. rewrite Eo. reflexivity.
       * repeat split; try lia. intros _. rewrite <- Z.negb_odd. now rewrite Eo.
     + repeat split; try lia.
+Qed.
+
+(* ------------------------------------------------------------------ NumPyVector: a strided view over the heap *)
+Lemma c20_map_nth_seq : forall (A : Type) (l : list A) d, map (fun i => nth i l d) (seq 0 (length l)) = l.
+Proof.
+  intros A l d. induction l as [|a l IH]; simpl; auto. f_equal.
+  rewrite <- seq_shift, map_map. exact IH.
+Qed.
+
+Lemma P_npv_cells_fixed : forall cfg H cells, cfg_npv_stride cfg = true ->
+  c20_strided cells -> Forall (fun a => a < length H) cells -> c20_npv_cells cfg H cells = Some cells.
+Proof.
+  intros cfg H cells Hc Hs Hr. unfold c20_npv_cells. unfold c20_strided in Hs.
+  set (bi := c20_buffer_info cells) in *.
+  assert (E : map (c20_npv_addr cfg bi) (seq 0 (c20_bi_size bi)) = map (fun i => Z.of_nat (nth i cells 0)) (seq 0 (length cells))).
+  { subst bi. simpl c20_bi_size. apply map_ext_in. intros i Hi. apply in_seq in Hi.
+    unfold c20_npv_addr. rewrite Hc. symmetry. apply Hs. lia. }
+  rewrite E. rewrite Forall_forall in Hr.
+  replace (forallb _ _) with true.
+  - f_equal. rewrite map_map. rewrite <- (c20_map_nth_seq _ cells 0) at 2. apply map_ext. intros; apply Nat2Z.id.
+  - symmetry. apply forallb_forall. intros a Ha. apply in_map_iff in Ha as [i [<- Hi]]. apply in_seq in Hi.
+    assert (nth i cells 0 < length H) by (apply Hr; apply nth_In; lia).
+    apply andb_true_iff. split; [apply Z.leb_le | apply Z.ltb_lt]; lia.
+Qed.
+
+(* every arithmetic progression of cells is a strided view (any step, also negative) *)
+Lemma P_strided_arith : forall (p s : Z) (n : nat), (forall k : nat, k < n -> (0 <= p + Z.of_nat k * s)%Z) ->
+  c20_strided (map (fun k => Z.to_nat (p + Z.of_nat k * s)) (seq 0 n)).
+Proof.
+  intros p s n Hpos. unfold c20_strided.
+  set (cells := map (fun k => Z.to_nat (p + Z.of_nat k * s)) (seq 0 n)).
+  assert (Hl : length cells = n) by (subst cells; now rewrite map_length, seq_length).
+  assert (Hn : forall i, i < n -> Z.of_nat (nth i cells 0) = (p + Z.of_nat i * s)%Z).
+  { intros i Hi. subst cells.
+    rewrite (nth_indep _ 0 (Z.to_nat (p + Z.of_nat 0 * s))) by (rewrite map_length, seq_length; lia).
+    rewrite (map_nth (fun k => Z.to_nat (p + Z.of_nat k * s))). rewrite seq_nth by lia. simpl plus.
+    apply Z2Nat.id. apply Hpos. lia. }
+  intros i Hi. rewrite Hl in Hi. rewrite (Hn i Hi). unfold c20_buffer_info, c20_bi_ptr, c20_bi_stride. rewrite Hl.
+  rewrite (Hn 0) by lia.
+  destruct (Nat.leb_spec 2 n).
+  - rewrite (Hn 1) by lia. change (Z.of_nat 0) with 0%Z. change (Z.of_nat 1) with 1%Z. ring.
+  - assert (i = 0) by lia. subst i. change (Z.of_nat 0) with 0%Z. ring.
+Qed.
+
+(* C20_numpy_view: with the stride honoured, for EVERY strided array object (any stride, positive or negative) and any
+   heap: entry i of the C++ NumPyVector is entry i of the array -- reads, writes and in-place arithmetic through the C++
+   object are exactly the Python-side read, write and in-place update of the same cells (so each side sees the other's writes) *)
+Lemma P_numpy_view : forall cfg st r o, cfg_npv_stride cfg = true ->
+  nth_error (c20_regs st) r = Some o -> c20_k o = C20_Arr -> c20_obj_ok (c20_H st) o -> c20_strided (c20_cells o) ->
+  c20_step cfg st (C20_NLen r) = c20_step cfg st (C20_Len r) /\
+  (forall i, i < c20_size o -> c20_step cfg st (C20_NGet r i) = c20_step cfg st (C20_Get r (Z.of_nat i))) /\
+  (forall i x, i < c20_size o -> c20_step cfg st (C20_NSet r i x) = c20_step cfg st (C20_Set r (Z.of_nat i) x)) /\
+  (forall i, i < c20_size o -> c20_step cfg st (C20_NGet r i) = (st, C20_ObsScalar (nth i (c20_vals st o) 0%Q))) /\
+  (forall q, c20_step cfg st (C20_NIMulS r q) = c20_inplace st o (c20_vscale q (c20_vals st o))) /\
+  (forall q, c20_step cfg st (C20_NIAddS r q) = c20_inplace st o (c20_vadds q (c20_vals st o))) /\
+  (forall q, c20_step cfg st (C20_NISubS r q) = c20_inplace st o (c20_vsubs q (c20_vals st o))) /\
+  (forall q, c20_qeqb q 0 = false -> c20_step cfg st (C20_NIDivS r q) = c20_inplace st o (c20_vdiv q (c20_vals st o))) /\
+  c20_step cfg st (C20_NNorm1 r) = (st, C20_ObsScalar (c20_one_norm (c20_vals st o))) /\
+  c20_step cfg st (C20_NNorm22 r) = (st, C20_ObsScalar (c20_two_norm2 (c20_vals st o))) /\
+  c20_step cfg st (C20_NNormInf r) = (st, C20_ObsScalar (c20_inf_norm (c20_vals st o))).
+Proof.
+  intros cfg st r o Hc E Hk [Hnd Hr] Hs.
+  pose proof (P_npv_cells_fixed cfg (c20_H st) (c20_cells o) Hc Hs Hr) as Hcells.
+  assert (Hidx : forall i, i < c20_size o -> c20_np_index (c20_size o) (Z.of_nat i) = C20_Ok i).
+  { intros i Hi. rewrite P_np_index. unfold c20_index_res.
+    destruct (P_spec_index_defined (c20_size o) (Z.of_nat i)) as [_ [H1 _]]. rewrite H1 by lia. now rewrite Nat2Z.id. }
+  repeat split; intros; simpl; unfold c20_on_npv, c20_on_any; rewrite E, ?Hcells; simpl; rewrite ?Hk; simpl;
+    try reflexivity.
+  - fold (c20_size o). replace (i <? c20_size o) with true by (symmetry; now apply Nat.ltb_lt). now rewrite Hidx.
+  - fold (c20_size o). replace (i <? c20_size o) with true by (symmetry; now apply Nat.ltb_lt). now rewrite Hidx.
+  - fold (c20_size o). replace (i <? c20_size o) with true by (symmetry; now apply Nat.ltb_lt).
+    unfold c20_vals. now rewrite c20_nth_read_all.
+  - rewrite H. reflexivity.
+Qed.
+
+(* the code before c31dbb5 (stride ignored): the statement is false; witness x = arange(6), view x[::2], entry 1 *)
+Lemma P_numpy_view_refuted : exists st r o i,
+  nth_error (c20_regs st) r = Some o /\ c20_k o = C20_Arr /\ c20_wf st /\ i < c20_size o /\
+  c20_step c20_cfg_current st (C20_NGet r i) <> c20_step c20_cfg_current st (C20_Get r (Z.of_nat i)).
+Proof.
+  exists {| c20_H := [0; 1; 2; 3; 4; 5]%Q; c20_regs := [{| c20_k := C20_Arr; c20_cells := [0; 2; 4] |}] |}, 0,
+         {| c20_k := C20_Arr; c20_cells := [0; 2; 4] |}, 1.
+  split; [reflexivity|]. split; [reflexivity|]. split; [|split].
+  - constructor; [|constructor]. split; simpl.
+    + repeat constructor; simpl; intuition discriminate.
+    + repeat constructor.
+  - vm_compute. lia.
+  - vm_compute. intro Hx. discriminate Hx.
+Qed.
+
+(* ------------------------------------------------------------------ TupleVector: types and values preserved *)
+Lemma c20_tv_cast_same : forall v, c20_tv_cast (c20_tv_type v) v = Some v.
+Proof. intros [q|z|l]; simpl; auto. now rewrite Nat.eqb_refl. Qed.
+
+Lemma P_tv_construct : forall x, c20_tv_construct x = Some x.
+Proof.
+  unfold c20_tv_construct. induction x as [|v x IH]; simpl; auto. now rewrite c20_tv_cast_same, IH.
+Qed.
+
+Lemma c20_tv_replace_length : forall tv j v, length (c20_tv_replace tv j v) = length tv.
+Proof. induction tv as [|h t IH]; intros [|j] v; simpl; auto. Qed.
+
+Lemma c20_tv_replace_nth : forall tv j k v d, j < length tv ->
+  nth k (c20_tv_replace tv j v) d = if Nat.eqb k j then v else nth k tv d.
+Proof.
+  induction tv as [|h t IH]; intros [|j] [|k] v d Hj; simpl in *; try lia; auto.
+  apply IH. lia.
+Qed.
+
+Lemma c20_tv_cast_type : forall t v v', c20_tv_cast t v = Some v' -> c20_tv_type v' = t.
+Proof.
+  intros [| |n] [q|z|l] v'; simpl; try discriminate; try (intros [= <-]; reflexivity).
+  destruct (Nat.eqb_spec (length l) n); [|discriminate]. intros [= <-]. simpl. congruence.
+Qed.
+
+Lemma P_tuple : forall x : list c20_tval,
+  c20_tv_construct x = Some x /\
+  (forall i, (0 <= i < Z.of_nat (length x))%Z -> c20_tv_getitem x i = C20_Ok (nth (Z.to_nat i) x (C20_TInt 0))) /\
+  (forall i, (Z.of_nat (length x) <= i)%Z -> c20_tv_getitem x i = C20_Exc C20_IndexError) /\
+  (forall i v, (0 <= i < Z.of_nat (length x))%Z -> c20_tv_type v = c20_tv_type (nth (Z.to_nat i) x (C20_TInt 0)) ->
+     exists x', c20_tv_setitem x i v = C20_Ok x' /\ length x' = length x /\ map c20_tv_type x' = map c20_tv_type x /\
+       (forall k, k < length x -> nth k x' (C20_TInt 0) = if Nat.eqb k (Z.to_nat i) then v else nth k x (C20_TInt 0)) /\
+       c20_tv_copy x = x).
+Proof.
+  intros x. split; [apply P_tv_construct|]. split; [|split].
+  - intros i Hi. unfold c20_tv_getitem, c20_cpp_index.
+    destruct (Z.ltb_spec i 0); [lia|]. destruct (Z.ltb_spec i (Z.of_nat (length x))); [reflexivity|lia].
+  - intros i Hi. unfold c20_tv_getitem, c20_cpp_index.
+    destruct (Z.ltb_spec i 0); [lia|]. destruct (Z.ltb_spec i (Z.of_nat (length x))); [lia|reflexivity].
+  - intros i v Hi Ht. unfold c20_tv_setitem, c20_cpp_index.
+    destruct (Z.ltb_spec i 0); [lia|]. destruct (Z.ltb_spec i (Z.of_nat (length x))); [|lia].
+    rewrite <- Ht, c20_tv_cast_same.
+    assert (Hj : Z.to_nat i < length x) by lia.
+    eexists. split; [reflexivity|]. split; [apply c20_tv_replace_length|]. split; [|split; [|reflexivity]].
+    + apply nth_ext with (d := C20_TyInt) (d' := C20_TyInt); [now rewrite !map_length, c20_tv_replace_length|].
+      intros k Hk. rewrite map_length, c20_tv_replace_length in Hk.
+      change C20_TyInt with (c20_tv_type (C20_TInt 0)). rewrite !map_nth.
+      rewrite c20_tv_replace_nth by assumption. destruct (Nat.eqb_spec k (Z.to_nat i)); [subst k; exact Ht|reflexivity].
+    + intros k Hk. now apply c20_tv_replace_nth.
+Qed.
+
+(* every basic slice is an arithmetic progression of positions inside [0, n) *)
+Lemma c20_slice_form : forall n a b c idx, c20_slice_indices n a b c = C20_Ok idx ->
+  exists (A st : Z) (len : nat), idx = map (fun k : nat => Z.to_nat (A + Z.of_nat k * st)) (seq 0 len) /\
+    forall k : nat, k < len -> (0 <= A + Z.of_nat k * st < Z.of_nat n)%Z.
+Proof.
+  intros n a b c idx. unfold c20_slice_indices.
+  set (nz := Z.of_nat n). set (st := match c with None => 1%Z | Some s => s end).
+  destruct (Z.eqb_spec st 0) as [|Hst]; [discriminate|].
+  set (A := match a with None => if (st <? 0)%Z then (nz - 1)%Z else 0%Z | Some x => c20_adjust nz st x end).
+  set (B := match b with None => if (st <? 0)%Z then (-1)%Z else nz | Some x => c20_adjust nz st x end).
+  assert (Hn : (0 <= nz)%Z) by (subst nz; lia).
+  assert (HA : ((0 < st -> 0 <= A <= nz) /\ (st < 0 -> -1 <= A <= nz - 1))%Z).
+  { subst A. destruct a; [apply c20_adjust_range; auto|]. destruct (Z.ltb_spec st 0); split; intros; lia. }
+  assert (HB : ((0 < st -> 0 <= B <= nz) /\ (st < 0 -> -1 <= B <= nz - 1))%Z).
+  { subst B. destruct b; [apply c20_adjust_range; auto|]. destruct (Z.ltb_spec st 0); split; intros; lia. }
+  intros [= <-]. eexists A, st, _. split; [reflexivity|]. fold nz.
+  destruct HA as [HA1 HA2]. destruct HB as [HB1 HB2].
+  destruct (Z.ltb_spec st 0) as [Hneg|Hpos].
+  - specialize (HA2 Hneg). specialize (HB2 Hneg).
+    destruct (Z.ltb_spec B A) as [Hlt|Hge]; [|intros; simpl in *; lia].
+    intros k Hk.
+    assert (Hq : (- st * ((A - B - 1) / - st) <= A - B - 1)%Z) by (apply Z.mul_div_le; lia).
+    assert (Z.of_nat k <= (A - B - 1) / - st)%Z by lia.
+    assert (Z.of_nat k * - st <= (A - B - 1) / - st * - st)%Z by (apply Z.mul_le_mono_nonneg_r; lia).
+    lia.
+  - assert (Hp : (0 < st)%Z) by lia. specialize (HA1 Hp). specialize (HB1 Hp).
+    destruct (Z.ltb_spec A B) as [Hlt|Hge]; [|intros; simpl in *; lia].
+    intros k Hk.
+    assert (Hq : (st * ((B - A - 1) / st) <= B - A - 1)%Z) by (apply Z.mul_div_le; lia).
+    assert (Z.of_nat k <= (B - A - 1) / st)%Z by lia.
+    assert (Z.of_nat k * st <= (B - A - 1) / st * st)%Z by (apply Z.mul_le_mono_nonneg_r; lia).
+    lia.
+Qed.
+
+(* x[a:b:c] of contiguous storage (np.array(list), a FieldVector's buffer) is a strided array: the hypothesis of
+   C20_numpy_view holds for every view the scripts can build in one slicing step, for every start/stop/step *)
+Lemma P_slice_strided : forall base n a b c idx, c20_slice_indices n a b c = C20_Ok idx ->
+  c20_strided (map (fun j => nth j (seq base n) 0) idx).
+Proof.
+  intros base n a b c idx E. apply c20_slice_form in E as [A [st [len [-> Hr]]]].
+  rewrite map_map.
+  replace (map (fun k : nat => nth (Z.to_nat (A + Z.of_nat k * st)) (seq base n) 0) (seq 0 len))
+    with (map (fun k : nat => Z.to_nat ((Z.of_nat base + A) + Z.of_nat k * st)) (seq 0 len)).
+  - apply P_strided_arith. intros k Hk. specialize (Hr k Hk). lia.
+  - apply map_ext_in. intros k Hk. apply in_seq in Hk. specialize (Hr k ltac:(lia)).
+    rewrite seq_nth by lia. lia.
 Qed.
